@@ -15,7 +15,7 @@ CHECK = {
                   "layouts x optional components; each dump and snapshot of a restarted run is compared byte for "
                   "byte with the uninterrupted run (timers masked, re-seeded seed field predicted). All crash points "
                   "of the bounded history are enumerated, hence fault enumeration.",
-    "level_note": "One thread, radiation off, 6^3 cells, N = 6 steps. Dumps are only written between steps, so the "
+    "level_note": "One thread, radiation off, 6^3 cells (one box 10x10x12), N = 6 steps. The geometry alphabet is selected at run time so that it contains boxes on which n/s != 1/(s/n) and anisotropic boxes on which the association orders of dx*dy*dz disagree (at least two of each). Dumps are only written between steps, so the "
                   "crash points are the step boundaries. The component part restores every object into memory "
                   "filled with two different byte patterns, which makes members the restart constructor forgets "
                   "visible deterministically.",
